@@ -171,7 +171,8 @@ def prepare(repo, scratch, sets):
     return harnesses
 
 
-def run_harnesses(repo, scratch, sets, tier='quick', timeout=900):
+def run_harnesses(repo, scratch, sets, tier='quick', timeout=None):
+    timeout = timeout or (900 if tier == 'thorough' else 300)
     t0 = time.time()
     res = dict(harnesses=[], inconclusive=[], summary=None, cmd='')
     try:
